@@ -65,6 +65,14 @@ def shapes_for(tier):
     return [[(2, 2, 1)], [(1, 1, 1), (1, 1, 1)], [(2, 2, 1), (2, 2, 1)], [(1, 2, 1), (1, 1, 1), (1, 1, 1)]]
 
 
+def kernel_shapes_for(tier):
+    # larger batches for the input-loading kernel alone (load_relevant_coins / extract_input_coins), which is where
+    # existence and duplicate detection live; the whole-batch runs above use its result
+    if tier == 'quick':
+        return [[(1, 1, 1), (2, 1, 1)], [(1, 2, 1), (1, 1, 1), (1, 1, 1)]]
+    return [[(1, 1, 1), (2, 1, 1)], [(1, 2, 1), (1, 1, 1), (1, 1, 1)], [(2, 2, 1), (2, 2, 1)], [(2, 1, 1), (1, 1, 1), (2, 1, 1)]]
+
+
 def run(chk):
     it = chk.load()
     it = B.prepare(chk)
@@ -81,6 +89,8 @@ def run(chk):
                     'obtain a header) is outside this check')
     for shape in shapes_for(chk.tier):
         one_shape(chk, it, shape)
+    for shape in kernel_shapes_for(chk.tier):
+        input_kernel(chk, it, shape)
 
 
 def one_shape(chk, it, shape):
@@ -152,6 +162,67 @@ def one_shape(chk, it, shape):
         raise Inconclusive('no returning path for batch shape %s' % tag)
     for cname, alts in covers.items():
         chk.cover_any('%s/%s' % (cname, tag), alts)
+
+
+def input_kernel(chk, it, shape):
+    """load_relevant_coins on a larger batch: Ok => every input is an unspent coin of the state or a (non-destroyed) output
+    created in the batch, no coin id occurs twice among all inputs, and the map handed on holds every input"""
+    tag = 'inputs:' + '+'.join('%d.%d' % (a, b) for a, b, c in shape)
+    run_ = B.run_batch(chk, it, shape, entry='load_relevant_coins')
+    tree0 = run_.state0.fields[3].fields[0].data
+    inputs = dict(run_.inputs)
+    n_ok = 0
+    covers = {}
+    allin = [(a, b) for tx in run_.txs for a, b in input_terms(tx)]
+    for k, (s, o) in enumerate(run_.outs):
+        name = '%s/%d' % (tag, k)
+        rp = lambda mo, r=run_, s=s: replay_graph(chk, r, s, mo)
+        if isinstance(o, Panic):
+            chk.obligation('PANIC/' + name, s.pc + B.supply_bound(s), z3.BoolVal(False), inputs, replay=rp,
+                           kind='PANIC', describe='%s @ %s' % (o.msg, o.where), bound=tag)
+            continue
+        is_ok = M.is_variant(o.v, 'Ok')
+        conj = []
+        for (a, b) in allin:
+            p0, _ = B.coin_lookup(it, s, tree0, a, b)
+            made = []
+            for tx in run_.txs:
+                for i in range(len(tx.fields[2].fields)):
+                    ex, _, txh = ref_output(s, it, tx, i, run_.sterms['height'])
+                    made.append(z3.And(ex, a == txh, b == bv(i, 8)))
+            conj.append(z3.Or([p0] + made))
+        for i in range(len(allin)):
+            for j in range(i + 1, len(allin)):
+                conj.append(z3.Not(z3.And(allin[i][0] == allin[j][0], allin[i][1] == allin[j][1])))
+        chk.obligation('FUNC/inputs-exist-and-distinct/' + name, s.pc + [is_ok], z3.And(conj), inputs, replay=rp, bound=tag)
+        covers.setdefault('accepted', []).append((list(s.pc), is_ok))
+        covers.setdefault('rejected', []).append((list(s.pc), z3.Not(is_ok)))
+        if len(run_.txs) >= 2:
+            txh0 = B.tx_hash_term(it, s, run_.txs[0])
+            a0 = input_terms(run_.txs[1])[0]
+            covers.setdefault('in-batch spend', []).append((list(s.pc), z3.And(is_ok, a0[0] == txh0, a0[1] == 0)))
+        n_ok += 1
+        chk.sample({'batch': tag, 'path': k})
+    if n_ok == 0:
+        raise Inconclusive('no returning path for %s' % tag)
+    for cname, alts in covers.items():
+        chk.cover_any('%s/%s' % (cname, tag), alts)
+
+
+def replay_graph(chk, run_, st, model):
+    """the counterexample's spending graph, rebuilt as balanced always-true MEL transfers, through the real apply_tx_batch"""
+    from props import scenario
+    b = scenario.Builder(chk.interp, st, run_, model)
+    sc = scenario.repair_graph(b.build())
+    observed, bad = {}, False
+    for prof in ('dev',) if chk.tier == 'quick' else ('dev', 'release'):
+        out = harness.run_replay([sc], prof)[0]
+        if 'error' in out:
+            raise Inconclusive('replay: %s' % out['error'])
+        v, reason = scenario.c02_verdict(sc, out)
+        observed[prof] = {'violated': v, 'reason': reason}
+        bad = bad or v
+    return bad, sc, observed
 
 
 def replay(chk, run_, st, model, panic=False):
